@@ -1046,8 +1046,8 @@ class Node():
                     f"Item '{item.coloured_name(False)}' can't be added more "
                     f"than once as child of '{self.coloured_name(False)}'.")
         self.pop_all_children()  # First remove existing children if any
-        self._children = ChildrenList(self, self._validate_child,
-                                      self._children_valid_format)
+        # The (now empty) list object is kept so that any reference to it
+        # obtained earlier through the 'children' property stays valid.
         self._children.extend(new_children)
 
     @property
